@@ -235,3 +235,30 @@ a_worker_reported_exceptional_is_closed_alone_and_the_io_loop_goes_on.bound = \
   "two workers; one (with queued bytes) reported exceptional - readable and / or writable as well, or neither -, the other readable"
 unit("C20", target=IO + "RecocoIOLoop.run (exceptional condition)",
      name="an_exceptional_worker_is_not_written_to_after_it_was_closed")(a_worker_reported_exceptional_is_closed_alone_and_the_io_loop_goes_on)
+
+
+@unit("C20", target=IO + "RecocoIOLoop.register_worker (on_close) / RecocoIOLoop.run, RecocoIOWorker.close")
+def a_worker_closed_by_its_owner_is_retired_by_the_loop(b):
+  """sixth round, 2026-09-25: a seeded change made the loop's close callback only close the socket and left the worker in the
+  loop's worker set ('the _do_* handlers take it out themselves' - they do, on THEIR error paths): a worker closed by its owner,
+  or by send_fast after a fatal error, that was then sent to again was still serviced - _do_send wrote to the dead socket"""
+  tr, pinger, outs, datas, olds, socks, ws, loop = env(b)
+  A, B = ws
+  more = b.bytes("sent_after_the_close", None, 1, 8)
+  def run(loop, ws):
+    for w in ws:
+      loop.register_worker(w)
+    g = loop.run()
+    y0 = select_sets(next(g))
+    A.close()
+    A.send(more)
+    y1 = select_sets(g.send(([pinger], [], [])))
+    y2 = select_sets(g.send(([], [x for x in y1[1]], [])))
+    return (y0, y1, y2, [e for e in tr.log if e[0] in ("send", "sock.close", "closed")])
+  return Case(run, [loop, ws], raises={}, ensures={
+    "the_closed_worker_is_no_longer_watched_for_anything":
+      lambda res: same_members(res[1][0], [B, pinger]) and res[1][1] == [] and same_members(res[1][2], [B])
+      and same_members(res[2][0], [B, pinger]) and res[2][1] == [],
+    "its_socket_is_closed_once_and_never_written_to": lambda res: res[3] == [("closed", "A"), ("sock.close", "A")],
+  })
+a_worker_closed_by_its_owner_is_retired_by_the_loop.bound = "two workers; one closed by its owner and sent to afterwards; two rounds"
